@@ -6,20 +6,27 @@
    mu >= m - p - r - 1 = n + 1, r = per1 - 1 the periodic continuity).
 
    Contents
-     Part 1  boehm_sum_gen      Boehm's identity summed against arbitrary coefficients, with the two boundary terms
+     Part 1  boehm_sum_gen / boehm_sum
+                                 Boehm's identity summed against arbitrary coefficients, with the two boundary terms
      Part 2  insert_matrix_entries_per
                                  the cells of the matrix the model writes, WITH the modular indices
      Part 3  canonical periodic knot lists (per_canon) and the three cases of the model
-               interior   (p + per1 <= mu <= n)      no repair, one Boehm step
-               right      (p <= mu <= p + per1 - 1)  repair_right, two Boehm steps (x and x + T)
-               left       (n + 1 <= mu <= n + per1)  repair_left, two Boehm steps (x - T and x) and the first knot dropped
-     Part 4  object level (tsum_apply_dir)
-     Part 5  spec level, knot functions: periodic_boehm
+               interior   (p + per1 <= mu <= n)      no repair, one Boehm step, every t
+               right      (p <= mu <= p + per1 - 1)  repair_right, two Boehm steps (x and x + T), t before the end
+               left       (n + 1 <= mu <= n + per1)  repair_left, two Boehm steps (x - T and x), first knot dropped,
+                                                     t after the start
+     Part 4  basis_insert_knot_periodic, basis_insert_knot_periodic_interior,
+             insert_knot_periodic_interior_preserves_map, insert_knot_periodic_preserves_map (tsum_apply_dir);
+             non-vacuity: ex_canon (cubic, 8 functions, continuity 2), ex_interior / ex_right / ex_left
+     Part 5  spec level, knot functions: periodic_boehm_exact / periodic_boehm (all images x + a T, a >= 0)
+     Part 6  one step of lower_periodic: roll_drop, roll_row_rel, lower_periodic_step_preserves_map,
+             obj_lower_periodic_step, lower_step_canon
    Regularity: n >= p + per1 - 1 = order + continuity functions (below this the repair loops overlap and the
-   implementation changes the map: Properties/C04.v C04_insert_knot_periodic_small_refuted). *)
+   implementation changes the map: Properties/C04.v C04_insert_knot_periodic_small_refuted; confirmed on the Python
+   code: no failure in 40 random insertions per (p, cont, n) for n >= p + cont, failures for smaller n). *)
 From Coq Require Import List Arith Reals Lra Lia Bool ZArith.
 From SplipyModel Require Import Spec.BSpline Spec.Boehm Spec.Deriv Model.Num Model.BasisDef Model.BasisEval Model.Tensor Model.Obj
-  Model.KnotInsert Proofs.KnotList Proofs.Bridge Proofs.SpanCorrect Proofs.TensorLemmas Proofs.EvaluateSpec Proofs.EvalConsequences
+  Model.KnotInsert Model.Split Model.Periodic Proofs.KnotList Proofs.Bridge Proofs.SpanCorrect Proofs.TensorLemmas Proofs.EvaluateSpec Proofs.EvalConsequences
   Proofs.InsertMatrix Proofs.TensorApply Proofs.InsertObj Proofs.InsertEndToEnd Proofs.AppendProofs Proofs.SeamContinuity.
 Import ListNotations.
 Open Scope R_scope.
@@ -1536,6 +1543,11 @@ Proof.
     specialize (IH H HN). nia.
 Qed.
 
+Lemma length_tl {A} (l : list A) : length (tl l) = (length l - 1)%nat.
+Proof. destruct l; cbn [tl length]; lia. Qed.
+Lemma nth_tl {A} (l : list A) i d : nth i (tl l) d = nth (S i) l d.
+Proof. destruct l; [destruct i; reflexivity|reflexivity]. Qed.
+
 Section LowerStep.
 Variable k : list R.
 Variables (p per1 n : nat) (T : R).
@@ -1561,7 +1573,7 @@ Proof.
   destruct (mu_bracket_per k p per1 n T Hcan x start_in_domain) as [Hmu [Hb1 Hb2]].
   rewrite (window_knots k p per1 n T Hcan x start_in_domain) by lia.
   destruct (Nat.eq_dec p mu) as [E|E].
-  - rewrite E at 2. apply k'_eq.
+  - transitivity (k' K mu x mu); [f_equal; exact E|apply k'_eq].
   - rewrite k'_lt by lia. pose proof (HK (p - 1)%nat p ltac:(lia)). pose proof (HK p (mu - 1)%nat ltac:(lia)). lra.
 Qed.
 
@@ -1575,7 +1587,7 @@ Proof.
   set (t1 := @nsub R NumR (@kn R NumR knew 0) (@kn R NumR knew (length knew - p - per1))).
   assert (Et1 : t1 = - T).
   { unfold t1. cbn [nsub NumR]. replace (length knew - p - per1)%nat with (0 + (n + 1))%nat by lia. rewrite Himg' by lia. ring. }
-  assert (Ltl : length (tl knew) = (n + per1 + p)%nat) by (destruct knew; cbn [tl length] in *; lia).
+  assert (Ltl : length (tl knew) = (n + per1 + p)%nat) by (rewrite length_tl; lia).
   assert (Ll : length (firstn (length knew - p - per1 - 1) (skipn 1 knew)) = n).
   { rewrite firstn_length, skipn_length. lia. }
   rewrite Ll. replace (length knew - p - per1 - 1)%nat with n by lia.
@@ -1588,11 +1600,9 @@ Proof.
     destruct (Nat.lt_ge_cases i n) as [A|A].
     + rewrite app_nth1 by (rewrite firstn_length, Ltl; lia). apply InsertMatrix.nth_firstn_lt. exact A.
     + rewrite app_nth2 by (rewrite firstn_length, Ltl; lia). rewrite firstn_length, Ltl. replace (Nat.min n (n + per1 + p)) with n by lia.
-      rewrite (nth_map0 (fun v => @nsub R NumR v t1)) by (rewrite firstn_length; lia).
+      rewrite (nth_map_gen (fun v => @nsub R NumR v t1) _ (i - n) 0 0) by (rewrite firstn_length; lia).
       rewrite InsertMatrix.nth_firstn_lt by lia. cbn [nsub NumR]. rewrite Et1.
-      destruct knew as [|a0 l0] eqn:Ek; [cbn in Hlen'; lia|]. cbn [tl]. rewrite <- Ek.
-      change (nth i l0 0) with (nth (S i) (a0 :: l0) 0). rewrite <- Ek.
-      rewrite <- !kn_nth by lia. replace (S i) with ((i - n) + (n + 1))%nat by lia. rewrite Himg' by lia. ring.
+      rewrite nth_tl. rewrite <- !kn_nth by lia. replace (S i) with ((i - n) + (n + 1))%nat by lia. rewrite Himg' by lia. ring.
 Qed.
 
 (* the rolled rows: N_old = N_new x roll_matrix on the domain *)
@@ -1601,7 +1611,7 @@ Theorem roll_row_rel side t : after_start side x t ->
           (@roll_matrix R NumR (n + 1) 1).
 Proof.
   intros Ht. pose proof Hcan' as (HK' & Hper1 & Hpp & Hlen' & Hreg' & HT & _ & Himg').
-  assert (Ltl : length (tl knew) = (n + per1 + p)%nat) by (destruct knew; cbn [tl length] in *; lia).
+  assert (Ltl : length (tl knew) = (n + per1 + p)%nat) by (rewrite length_tl; lia).
   unfold row_rel. rewrite !ref_row_length. rewrite Ltl, Hlen'.
   replace (n + 1 + per1 + p - p - per1)%nat with (n + 1)%nat by lia.
   replace (n + per1 + p - p - (per1 - 1))%nat with (n + 1)%nat by lia.
@@ -1646,7 +1656,23 @@ Proof.
   - cbn [b_order b_per1]. pose proof roll_drop as E. cbv zeta in E. rewrite E. reflexivity.
   - unfold b_nfun. cbn [b_knots b_order b_per1]. lia.
   - unfold b_nfun, lower_step_basis. cbn [b_knots b_order b_per1].
-    assert (Ltl : length (tl knew) = (n + per1 + p)%nat) by (destruct knew; cbn [tl length] in *; lia). lia.
+    assert (Ltl : length (tl knew) = (n + per1 + p)%nat) by (rewrite length_tl; lia). lia.
+Qed.
+
+(* the basis after the step is again a regular canonical periodic one (continuity lowered by one), so the step iterates *)
+Theorem lower_step_canon : (2 <= per1)%nat -> per_canon (tl knew) p (per1 - 1) (n + 1) T.
+Proof.
+  intros H2. pose proof Hcan' as (HK' & Hper1 & Hpp & Hlen' & Hreg' & HT & Hseam' & Himg').
+  pose proof Hcan as (HK & _ & _ & Hlen & _ & _ & Hseam & _).
+  destruct (mu_bracket_per k p per1 n T Hcan x start_in_domain) as [Hmu _].
+  assert (Ltl : length (tl knew) = (n + per1 + p)%nat) by (rewrite length_tl; lia).
+  split.
+  { apply sorted_kn_of_nth. intros i j Hij. rewrite !nth_tl. rewrite <- !kn_nth by lia. apply HK'. lia. }
+  split; [lia|]. split; [lia|]. split; [lia|]. split; [lia|]. split; [exact HT|]. split.
+  - rewrite !kn_tl by lia. replace (S (per1 - 1)) with per1 by lia. replace (S (p - 1)) with p by lia.
+    rewrite knew_p. rewrite (window_knots k p per1 n T Hcan x start_in_domain) by lia. rewrite k'_lt by lia. exact Hseam.
+  - intros i Hi. rewrite Ltl in Hi. rewrite !kn_tl by lia.
+    replace (S (i + (n + 1))) with (S i + (n + 1))%nat by lia. apply Himg'. lia.
 Qed.
 
 (* D. one step of lower_periodic preserves the map: rows before (periodic, per1), after the insertion of the start knot,
@@ -1682,11 +1708,15 @@ Theorem obj_lower_periodic_step (o : obj R) d fuel target :
   nth d (o_bases o) (mkBasis 0 [] 0) = mkBasis p k per1 -> (target < per1)%nat ->
   let o1 := mkObj (upd (o_bases o) d (mkBasis p knew per1))
                   (@apply_dir R NumR (@o_ncomp R o) (@o_shape R o) d Cmat (o_cps o)) (o_dim o) (o_rat o) in
-  nth d (o_bases o1) (mkBasis 0 [] 0) = mkBasis p knew per1 ->     (* i.e. d < length (o_bases o) *)
   @obj_lower_periodic R NumR (S fuel) o target d
   = @obj_lower_periodic R NumR fuel (@obj_along R NumR o1 d lower_step_basis (@roll_matrix R NumR (n + 1) 1)) target d.
 Proof.
-  intros Hb Ht o1 Hb1.
+  intros Hb Ht o1.
+  assert (Hd : (d < length (o_bases o))%nat).
+  { destruct (Nat.lt_ge_cases d (length (o_bases o))) as [L|L]; [exact L|exfalso].
+    rewrite nth_overflow in Hb by exact L. pose proof Hcan as (_ & _ & Hpp & _). injection Hb as E1 _ _. lia. }
+  assert (Hb1 : nth d (o_bases o1) (mkBasis 0 [] 0) = mkBasis p knew per1).
+  { unfold o1. cbn [o_bases]. apply InsertEndToEnd.upd_nth_same. exact Hd. }
   cbn [obj_lower_periodic]. rewrite Hb. cbn [b_per1].
   destruct (Nat.ltb_spec target per1); [|lia].
   cbn [obj_insert_knots]. rewrite Hb.
@@ -1697,10 +1727,3 @@ Proof.
 Qed.
 End LowerStep.
 
-Print Assumptions basis_insert_knot_periodic.
-Print Assumptions basis_insert_knot_periodic_interior.
-Print Assumptions insert_knot_periodic_interior_preserves_map.
-Print Assumptions insert_knot_periodic_preserves_map.
-Print Assumptions periodic_boehm.
-Print Assumptions lower_periodic_step_preserves_map.
-Print Assumptions obj_lower_periodic_step.
